@@ -6,6 +6,7 @@ import BV.C18.HsLemmas
 import BV.C18.PipeLemmas
 import BV.C18.Explain
 import BV.C18.OrderLemmas
+import BV.C18.Trickle
 import BV.Generated.C18
 namespace BV.C18
 open Spec
@@ -366,7 +367,31 @@ example :
       [.check 0, .send 0, .check 1, .send 1, .check 2, .send 2, .disconnect, .abandon,
        .aStep, .aStep, .aStep, .aStep]).done = [0, 1, 2] := by decide
 
+/-! ## Part 3 — inventory trickle (batching loop of `queueHandler`'s trickle tick) -/
+
+/-- The trickled `inv` messages carry exactly the queued inventory that survived the
+known-inventory filter, in queue order (nothing dropped, duplicated or reordered by batching). -/
+theorem trickle_preserves_order (l : List Nat) :
+    (Trickle.batch Trickle.maxInvTrickleSize l []).flatten = l := by
+  simpa using Trickle.batch_flatten Trickle.maxInvTrickleSize l []
+
+/-- No trickled `inv` message is empty or has more than `maxInvTrickleSize` entries. -/
+theorem trickle_batches_bounded (l : List Nat) (c : List Nat)
+    (h : c ∈ Trickle.batch Trickle.maxInvTrickleSize l []) :
+    0 < c.length ∧ c.length ≤ Trickle.maxInvTrickleSize :=
+  Trickle.batch_sizes _ (by decide) l [] (by decide) c h
+
+/-- Every trickled `inv` message but the last is full. -/
+theorem trickle_batches_full (l : List Nat) (pre : List (List Nat)) (c : List Nat)
+    (post : List (List Nat)) (h : Trickle.batch Trickle.maxInvTrickleSize l [] = pre ++ c :: post) (hp : post ≠ []) :
+    c.length = Trickle.maxInvTrickleSize :=
+  Trickle.batch_full _ (by decide) l [] (by decide) pre c post h hp
+
 /-! ## Constants regenerated from the tree -/
+
+theorem pin_trickle : Generated.C18.maxInvTrickleSize = Trickle.maxInvTrickleSize ∧
+    Generated.C18.maxKnownInventory = Trickle.maxKnownInventory := by decide
+
 
 theorem pin_outputBufferSize : Generated.C18.outputBufferSize = 50 ∧
     Generated.C18.capOutputQueue = 50 ∧ Generated.C18.capSendQueue = 1 ∧
